@@ -1,0 +1,25 @@
+//go:build verif
+
+// Contracts for deductive verification (read by /verif/govc). Comment-only: this file adds no code.
+package types
+
+// A validated order genesis has pairwise distinct order and shard ids, all below the two counters
+//@ func (GenesisState) Validate() (err)
+//@   modifies nothing
+//@   ensures [C16.validate.orders] [C18.validate.orders] err == nil ==> (forall j int :: 0 <= j && j < len(gs.OrderList) ==> gs.OrderList[j].Id < gs.OrderCount)
+//@       && (forall a int, b int :: 0 <= a && a < b && b < len(gs.OrderList) ==> gs.OrderList[a].Id != gs.OrderList[b].Id)
+//@   ensures [C16.validate.shards] [C18.validate.shards] err == nil ==> (forall j int :: 0 <= j && j < len(gs.ShardList) ==> gs.ShardList[j].Id < gs.ShardCount)
+//@       && (forall a int, b int :: 0 <= a && a < b && b < len(gs.ShardList) ==> gs.ShardList[a].Id != gs.ShardList[b].Id)
+//@   loop L1 invariant -1 <= rangeindex && rangeindex < len(gs0.OrderList)
+//@   loop L1 invariant forall j int :: 0 <= j && j <= rangeindex ==> gs0.OrderList[j].Id < orderCount && indom(orderIdMap, gs0.OrderList[j].Id)
+//@   loop L1 invariant forall x int :: indom(orderIdMap, x) ==> exists j int :: 0 <= j && j <= rangeindex && gs0.OrderList[j].Id == x
+//@   loop L1 invariant forall a int, b int :: 0 <= a && a < b && b <= rangeindex ==> gs0.OrderList[a].Id != gs0.OrderList[b].Id
+//@   loop L2 invariant -1 <= rangeindex && rangeindex < len(gs0.ShardList)
+//@   loop L2 invariant forall j int :: 0 <= j && j <= rangeindex ==> gs0.ShardList[j].Id < shardCount && indom(shardIdMap, gs0.ShardList[j].Id)
+//@   loop L2 invariant forall x int :: indom(shardIdMap, x) ==> exists j int :: 0 <= j && j <= rangeindex && gs0.ShardList[j].Id == x
+//@   loop L2 invariant forall a int, b int :: 0 <= a && a < b && b <= rangeindex ==> gs0.ShardList[a].Id != gs0.ShardList[b].Id
+
+// parameter validation goes through interface{}-typed validators (outside the verified subset)
+//@ func (Params) Validate() (err)
+//@   trusted not verified: validator functions take interface{} and use type assertions
+//@   modifies nothing
